@@ -3,7 +3,7 @@
    holds for EVERY agent state.  The quiescent two-agent agreement is checked on the two-agent
    harness (suite "pair") and stated for the two-agent model in Props/C01.v. *)
 From Coq Require Import ZArith Bool List.
-From Ice Require Import Model.AgentTypes Model.AgentCore Gen.Consts Proofs.AgentFrame Proofs.AgentC02 Proofs.AgentC20 Proofs.AgentEnds Proofs.AgentC20Hist.
+From Ice Require Import Model.AgentTypes Model.AgentCore Gen.Consts Proofs.AgentFrame Proofs.AgentC02 Proofs.AgentC20 Proofs.AgentEnds Proofs.AgentC20Hist Model.TwoAgents Model.TwoAgentsData Proofs.TwoAgentsDataProofs Proofs.TwoAgentsProjection Proofs.TwoAgentsC20.
 Import ListNotations.
 Local Open Scope Z_scope.
 
@@ -121,6 +121,17 @@ Theorem C20_last_nomination_monotone : forall cfg a b s,
   no_restart cfg s (a ++ b) -> nom_le (s_last_nom (runs cfg s a)) (s_last_nom (runs cfg s (a ++ b))).
 Proof. exact last_nomination_monotone. Qed.
 Print Assumptions C20_last_nomination_monotone.
+
+(* ... and inside the two-agent system (projection, Props/C01.v): along any schedule of the composed system, over any stretch
+   in which agent a's own operations do not restart its selector, the value a remembers never decreases -- whatever the
+   network delivers, drops, duplicates or reorders *)
+Theorem C20_system_last_nomination_monotone : forall cfga cfgb t a d ops1 ops2,
+  let d1 := dsys_run cfga cfgb t d ops1 in
+  no_restart (cfg_of cfga cfgb a) (agent_of a (d_sys d1)) (history_of cfga cfgb t a d1 ops2) ->
+  nom_le (s_last_nom (agent_of a (d_sys d1)))
+         (s_last_nom (agent_of a (d_sys (dsys_run cfga cfgb t d (ops1 ++ ops2))))).
+Proof. exact system_last_nomination_monotone. Qed.
+Print Assumptions C20_system_last_nomination_monotone.
 
 (* non-vacuity: from the state of C20_example (value 1 accepted), values 3, 2, a tick, 7, 7 arrive: accepted 3, -, -, 7, - *)
 Module C20_example_history.
